@@ -555,6 +555,7 @@ func (FramesFaults) Execute(pl engine.Plan, c *engine.RunCtx) *engine.Failure {
 				s := simio.NewStream(b, p.Policies[1])
 				msg := frames[0].spec.Empty()
 				what := fmt.Sprintf("body-size field=%d with %d bytes following the header", bs, R)
+				c.Status.SetNote("Unmarshal on " + what)
 				n, _, err, pan, consumed := call(s, msg)
 				if pan != nil {
 					if _, ok := pan.(simio.LivenessAbort); ok {
@@ -606,6 +607,7 @@ func (FramesFaults) Execute(pl engine.Plan, c *engine.RunCtx) *engine.Failure {
 			if len(what) > 240 {
 				what = what[:240] + "…"
 			}
+			c.Status.SetNote("Unmarshal on " + what)
 			n, _, err, pan, consumed := call(s, msg)
 			if pan != nil {
 				if _, ok := pan.(simio.LivenessAbort); ok {
